@@ -367,7 +367,7 @@ def run_case(case, seg, viol, stats, sample):
                 viol.append({"clause": "a reported structure lies outside the gap",
                              "detail": dict(detail0, solver=mode, structure=list(k), score=o, optimum=opt)})
         for k, o in table.items():
-            if k in rep or o > ub - BAND:
+            if k in rep or o > ub + 1e-6:
                 continue
             ck = Counter(k)
             if not any((Counter(rk) - ck) == Counter() and ro <= o + TOL for rk, ro in rep.items()):
